@@ -96,15 +96,19 @@ def render_row(tag, row, tmpl):
         if tmpl['onattr'][i]:
             attrs += ' a%d="%s"' % (i, lex)
         else:
-            kids += '<c%d>%s</c%d>' % (i, lex, i)
+            # a descendant that rebinds the prefixes used by QName values of the selected node itself (its own value is not a
+            # QName): the fields of the selected node are resolved with the bindings in scope at that node
+            rb = ' xmlns:p="urn:n2" xmlns:q="urn:n3"' if row.get('rebind') and tmpl['types'][i] != 'xs:QName' else ''
+            kids += '<c%d%s>%s</c%d>' % (i, rb, lex, i)
+    rb = ' xmlns:p="urn:n2" xmlns:q="urn:n3"' if row.get('rebind') else ''
     if row.get('id'):
         attrs += ' id="%s"' % row['id']
     if row.get('ref'):
         attrs += ' ref="%s"' % row['ref']
     if row.get('ide'):
-        kids += '<ide>%s</ide>' % row['ide']
+        kids += '<ide%s>%s</ide>' % (rb, row['ide'])
     if row.get('refe'):
-        kids += '<refe>%s</refe>' % row['refe']
+        kids += '<refe%s>%s</refe>' % (rb, row['refe'])
     return '<%s%s>%s</%s>' % (tag, attrs, kids, tag)
 
 
@@ -302,6 +306,8 @@ def rand_row(rng, tmpl, p_missing=0.2, ids=None):
         else:
             cells.append(rng.randrange(len(pool(tmpl, i))))
     row = {'cells': cells}
+    if 'xs:QName' in tmpl['types'] and rng.random() < 0.5:
+        row['rebind'] = True
     if ids is not None:
         r = rng.random()
         if r < 0.15:
